@@ -62,6 +62,8 @@ MUTANTS = [
     {"name": "revert-0686b8d-registry-cache-check-then-read", "revert": "0686b8d", "props": ["C20"]},
     {"name": "c20-lock-released-before-fields-resolved", "props": ["C20"], "edits": [{"file": "utype/parser/base.py", "old": "        with self._forward_lock:\n            if not self.forward_refs:\n                return False\n            return self._resolve_forward_refs(local_vars=local_vars, ignore_errors=ignore_errors)", "new": "        with self._forward_lock:\n            if not self.forward_refs:\n                return False\n        return self._resolve_forward_refs(local_vars=local_vars, ignore_errors=ignore_errors)"}]},
     {"name": "revert-a0fd8f0-lax-fractional-bound-int", "revert": "a0fd8f0", "props": ["C03"]},
+    {"name": "revert-26d5b4e-abstract-container-elements", "revert": "26d5b4e", "props": ["C01"]},
+    {"name": "revert-a63d0d7-strict-recheck-after-lax", "revert": "a63d0d7", "props": ["C01", "C03"]},
     # ---- C01 ------------------------------------------------------------------------------
     {"name": "c01-seq-first-element-unconverted", "props": ["C01"], "edits": [{"file": R, "old": """                try:
                     result.append(
